@@ -203,6 +203,12 @@ func Violate(res *core.Result, sig string, detail interface{}) {
 			return
 		}
 	}
-	res.Violations = append(res.Violations, core.Violation{Signature: sig, Detail: core.MustJSON(detail)})
+	v := core.Violation{Signature: sig, Detail: core.MustJSON(detail)}
+	res.Violations = append(res.Violations, v)
 	res.Verdict = "violation"
+	// written at once as well: if the process is killed later in the run (fatal runtime error in
+	// the code under test) what was found before must not be lost
+	if b, err := json.Marshal(v); err == nil {
+		os.Stdout.Write(append(append([]byte("PARTIAL "), b...), '\n'))
+	}
 }
